@@ -24,9 +24,14 @@ struct Tab {
     idcol: Option<String>,
     /// ADD COLUMN ran while the table held rows (stored rows are shorter than the schema)
     short_rows: bool,
+    /// the PRIMARY KEY column has been dropped (ALTER TABLE .. DROP COLUMN <pk>)
+    pk_dropped: bool,
     pk_renamed: bool,
     recreated: bool,
     live_ids: Vec<i64>,
+    /// rows were inserted since the last rewrite of all rows (TRUNCATE / DROP COLUMN): deleted rows stay in the
+    /// B-tree as tombstones in the record format they were written with
+    any_rows: bool,
 }
 
 struct World<'a> {
@@ -194,7 +199,7 @@ impl<'a> World<'a> {
         let td = TDef { name: name.to_string(), cols: cols.clone() };
         let op = if self.dropped.iter().any(|d| d == name) { "create_table_again" } else { "create_table" };
         if self.step(rep, op, &td.create_sql(true), &td.model_create(true)) {
-            self.tabs.push(Tab { name: name.to_string(), cols, next_id: 1, indexes: vec![], idcol: Some("id".into()), short_rows: false, pk_renamed: false, recreated: op == "create_table_again", live_ids: vec![] });
+            self.tabs.push(Tab { name: name.to_string(), cols, next_id: 1, indexes: vec![], idcol: Some("id".into()), short_rows: false, pk_dropped: false, pk_renamed: false, recreated: op == "create_table_again", live_ids: vec![], any_rows: false });
             self.dropped.retain(|d| d != name);
         }
     }
@@ -219,7 +224,7 @@ impl<'a> World<'a> {
         };
         let ml = format!("stmt (insert {} ({}) ({}))", t.name, idxs.iter().map(|i| i.to_string()).collect::<Vec<_>>().join(" "), vs_sx(&vals));
         self.blame_add_column = t.short_rows;
-        if self.step(rep, if subset { "insert_columns" } else { "insert" }, &sql, &ml) { self.tabs[ti].live_ids.push(id); self.total_inserts += 1; }
+        if self.step(rep, if subset { "insert_columns" } else { "insert" }, &sql, &ml) { self.tabs[ti].live_ids.push(id); self.tabs[ti].any_rows = true; self.total_inserts += 1; }
     }
 
     /// a second row with an id that is still present: must be rejected while the id column is the PRIMARY KEY
@@ -279,7 +284,7 @@ impl<'a> World<'a> {
         let ml = format!("ddl (addcolumn {name} {})", c.sx(true));
         if self.step(rep, if with_default { "add_column_default" } else { "add_column" }, &sql, &ml) {
             self.tabs[ti].cols.push(c);
-            if !self.tabs[ti].live_ids.is_empty() { self.tabs[ti].short_rows = true; }
+            if !self.tabs[ti].live_ids.is_empty() || self.tabs[ti].any_rows { self.tabs[ti].short_rows = true; }
         }
     }
 
@@ -296,7 +301,9 @@ impl<'a> World<'a> {
             self.tabs[ti].indexes.retain(|(_, cs)| !cs.contains(&cname));
             if self.tabs[ti].idcol.as_ref() == Some(&cname) { self.tabs[ti].idcol = None; }
             // DROP COLUMN rewrites every row in the new format
-            self.tabs[ti].short_rows = false;
+ self.tabs[ti].short_rows = false;
+            self.tabs[ti].any_rows = !self.tabs[ti].live_ids.is_empty();
+            if op == "drop_column_pk" { self.tabs[ti].pk_dropped = true; }
         }
     }
 
@@ -319,7 +326,7 @@ impl<'a> World<'a> {
 
     fn truncate(&mut self, rep: &mut Report, ti: usize) {
         let name = self.tabs[ti].name.clone();
-        if self.step(rep, "truncate", &format!("TRUNCATE TABLE {name}"), &format!("ddl (truncate {name})")) { self.tabs[ti].live_ids.clear(); self.tabs[ti].short_rows = false; }
+        if self.step(rep, "truncate", &format!("TRUNCATE TABLE {name}"), &format!("ddl (truncate {name})")) { self.tabs[ti].live_ids.clear(); self.tabs[ti].short_rows = false; self.tabs[ti].any_rows = false; }
     }
 
     fn drop_table(&mut self, rep: &mut Report, ti: usize) {
@@ -339,7 +346,7 @@ impl<'a> World<'a> {
         if unique && t.cols[0].name != "id" { return; }
         let sql = format!("CREATE {}INDEX {iname} ON {} ({})", if unique { "UNIQUE " } else { "" }, t.name, t.cols[ci].name);
         let ml = format!("ddl (createindex {iname} {} {} ({ci}))", t.name, unique as u8);
-        let op = if t.short_rows { "create_index_after_add_column" } else if unique { "create_unique_index" } else { "create_index" };
+        let op = if t.short_rows { "create_index_after_add_column" } else if t.pk_dropped { "create_index_after_drop_pk" } else if unique { "create_unique_index" } else { "create_index" };
         if self.step(rep, op, &sql, &ml) { self.tabs[ti].indexes.push((iname, vec![t.cols[ci].name.clone()])); }
     }
 
